@@ -218,7 +218,11 @@ def _stream_decrypt(ctx, mk, stream, cuts, fin_cap):
     st = h.Stream(ctx, upd, fin, cbuf, query=False, fin_cap=fin_cap)
     got = st.run(stream, cuts)
     cbuf.free()
+    _stream_decrypt.last_bound = list(st.bound)
     return got is not None, got
+
+
+_stream_decrypt.last_bound = []
 
 
 def _streaming_construction(ctx, u, name, mk_ctx, nonce_len_choices, tag_lens, keylen, fin_cap_enc, fin_cap_dec):
@@ -258,6 +262,10 @@ def _streaming_construction(ctx, u, name, mk_ctx, nonce_len_choices, tag_lens, k
         for style in styles:
             ctx.begin([name, 'positive-control', style, det])
             ok, pt, cuts = attempt(nonce, aad, full, style)
+            for what, bd in _stream_decrypt.last_bound[:1]:
+                # the untouched stream decrypts, but an update call reported success without saying how many bytes it
+                # produced (or wrote past what it reported): the caller cannot assemble the message
+                ctx.check(False, '%s:positive-control:%s' % (name, what), cuts=cuts[:20], **dict(det, **bd))
             good &= h._check(ctx, ok and pt == msg, name + ':positive-control-failed', chunking=cuts[:40], accepted=ok,
                              got=h._hx(pt), **det)
             ctx.stat('positive_controls')
